@@ -95,6 +95,10 @@ def make_groups(chk, pid, rng, n_groups, thorough):
     for gi in range(n_groups):
         gid = gi + 1
         fam = None
+        if pid in ('C10', 'C16') and gi % 4 == 0:
+            fam = 'fork'
+        elif pid == 'C10' and gi % 2 == 0:
+            fam = 'street'
         if pid == 'C17':
             fam = rng.choice(['degenerate', 'degenerate', 'random', 'street'])
         inst = geom.gen_instance(rng, maxn=7 if thorough else 6, maxT=6 if thorough else 5, G=rng.choice([2, 3, 4]), family=fam)
@@ -102,7 +106,13 @@ def make_groups(chk, pid, rng, n_groups, thorough):
         runs = []
         if pid == 'C10':
             cf = geom.gen_config(rng)
-            ops = rand_ops(rng, T, cf)
+            if gi % 2 == 0:        # width pruning with exact ties (two-way streets, symmetric forks) is where listing order could leak in
+                cf['W'] = rng.choice([1, 1, 2, 3])
+                cf['max_dist_init'] = rng.choice([None, 1.0, 1.5])
+                if gi % 4 == 0:
+                    cf.update(max_dist=None, max_dist_init=0.6, min_prob_norm=None, W=rng.choice([1, 2, 2]),
+                              ne=rng.random() < 0.25)
+            ops = rand_ops(rng, T, cf) if gi % 4 else [('match', T)]
             strl = rng.random() < 0.5
             base_c = geom.Conc(strlabels=strl)
             job = {'inst': inst, 'cf': cf, 'conc': base_c.desc(), 'ops': ops}
@@ -122,7 +132,10 @@ def make_groups(chk, pid, rng, n_groups, thorough):
             continue
         if pid == 'C16':
             cf = geom.gen_config(rng)
-            ops = rand_ops(rng, T, cf)
+            if gi % 4 == 0:
+                cf.update(max_dist=None, max_dist_init=0.6, min_prob_norm=None, W=rng.choice([1, 2, 2]),
+                          ne=rng.random() < 0.25)
+            ops = rand_ops(rng, T, cf) if gi % 4 else [('match', T)]
             base = run_one(inst, cf, geom.Conc(), ops, full=True)
             runs.append(obs_of(base, 'base', keep_lat=True))
             concs = [('relabel-with-zero', geom.Conc(relabel=perm_relabel(rng, inst['nodes'], 'zero')), 0, 0),
@@ -246,11 +259,38 @@ def design_level(chk, pid, thorough):
     return groups
 
 
+ORDER_PERMS = ('node-order', 'neighbour-order')
+RESULT_CLAUSES = ('best-probability-differs', 'matched-index-differs', 'empty-result-differs')
+
+
+def order_sig(sig, clause, name, inst, cf, ops, runs):
+    """Attribution of a listing-order dependence to the non-emitting search (finding F-ne-order): the failing run is a
+    pure permutation of the listing order, non-emitting states are on, and with non-emitting states switched off the
+    very same pair of runs agrees exactly (index and best probability)."""
+    sig['listing_order_permutation'] = any(name.startswith(x) for x in ORDER_PERMS)
+    sig['non_emitting_states'] = bool(cf.get('ne'))
+    if not (sig['listing_order_permutation'] and sig['non_emitting_states'] and clause in RESULT_CLAUSES):
+        return sig
+    try:
+        cf2 = dict(cf, ne=False)
+        base = runs[0]
+        perm = next(r for r in runs if r['name'] == name)
+        o = [tuple(x) for x in ops] or None
+        e0 = run_one(inst, cf2, geom.Conc.from_desc(dict(base['conc'])), o, full=False)
+        e1 = run_one(inst, cf2, geom.Conc.from_desc(dict(perm['conc'])), o, full=False)
+        b0 = e0['path'][-1]['lp'] if e0['path'] else 0
+        b1 = e1['path'][-1]['lp'] if e1['path'] else 0
+        sig['agrees_without_non_emitting_states'] = (e0['exc'] == '' and e1['exc'] == '' and e0['idx'] == e1['idx'] and b0 == b1)
+    except Exception as ex:         # attribution failed: the case stays a violation
+        sig['agrees_without_non_emitting_states'] = False
+    return sig
+
+
 def run(chk):
     pid, thorough = chk.pid, chk.tier == 'thorough'
     rng = random.Random(chk.seed * 15485863 + int(pid[1:]))
     extra_groups = design_level(chk, pid, thorough)
-    n = {'C10': (260, 1500), 'C16': (700, 3000), 'C17': (2600, 12000), 'C19': (900, 6000), 'C15': (300, 2000), 'C12': (300, 2500)}[pid][thorough]
+    n = {'C10': (420, 2000), 'C16': (700, 3000), 'C17': (2600, 12000), 'C19': (900, 6000), 'C15': (300, 2000), 'C12': (300, 2500)}[pid][thorough]
     groups = make_groups(chk, pid, rng, n, thorough) + extra_groups
     verdicts = validate(chk, pid, groups, pid)
     nontriv = 0
@@ -262,6 +302,8 @@ def run(chk):
             sig = {'clause': clause}
             if pid == 'C19':
                 sig['first_lattice_difference'] = g['runs'][-1].get('latdiff', 'none')
+            if pid in ('C10', 'C16') and not g.get('abs'):
+                order_sig(sig, clause, name, g['inst'], g['cf'], g['ops'], g['runs'])
             chk.violation(f'group {g["gid"]}: {clause} under {name}',
                           {'kind': 'embed', 'inst': g['inst'], 'cf': g['cf'], 'ops': g['ops'], 'verdict': v,
                            'pid': pid, 'abs': g.get('abs', False), 'check_robust': g.get('check_robust', False), 'obs4': g.get('obs4', []), 'edges4': g.get('edges4', []),
@@ -315,6 +357,8 @@ def finish_replay(pid, c, runs, inst):
         sig = {'clause': clause}
         if pid == 'C19' and len(runs) == 2:
             sig['first_lattice_difference'] = classify_debug_diff(runs[0]['lat'] or [], runs[1]['lat'] or [])
+        if pid in ('C10', 'C16') and inst:
+            order_sig(sig, clause, name, inst, c['cf'], c['ops'], runs)
         k = chk.match_known(sig)
         if k is not None:
             print(f"KNOWN-FINDING: property={pid} {k['id']}: {k['what']}")
